@@ -39,7 +39,7 @@ def observe(atoms, tol=TOL, order=None, with_params=True, reuse=None, keep=None)
         keep.append(an)
     for name in order or []:
         getattr(an, name)()
-    o = {"reused_analyzer": reuse is not None, "n_in": len(atoms), "vol_in": int(round(atoms.get_volume() * 1000)), "tol6": int(round(tol * 1e6))}
+    o = {"reused_analyzer": reuse is not None, "in_det_sign": int(np.sign(np.linalg.det(atoms.get_cell()[:]))), "n_in": len(atoms), "vol_in": int(round(atoms.get_volume() * 1000)), "tol6": int(round(tol * 1e6))}
     o["number"] = int(an.get_space_group_number())
     o["hall"] = int(an.get_hall_number())
     o["pointgroup"] = str(an.get_point_group())
